@@ -63,6 +63,8 @@ def cases(tier):
     for arm in ("f0", "f1"):
         for src in ("f0", "f1"):
             out.append({"id": f"mzi/photon-in-{src}/phase-on-{arm}", "what": "mzi", "arm": arm, "src": src})
+            # the same interferometer with the joint state held as a density matrix when the phase is applied
+            out.append({"id": f"mzi-matrix/photon-in-{src}/phase-on-{arm}", "what": "mzi", "arm": arm, "src": src, "matrix": True})
     for d in (2, 3):
         out.append({"id": f"sectors/{d}", "what": "sectors", "d": d})
     return out
@@ -189,6 +191,8 @@ def _mzi(B, case):
 
     bs = lambda: Operation(CompositeOperationType.NonPolarizingBeamSplitter, eta=math.pi / 4)
     ce.apply_operation(bs(), f0, f1)
+    if case.get("matrix"):
+        ce.expand(f0)
     W.sub(case["arm"]).apply_operation(Operation(FockOperationType.PhaseShift, phi=phi))
     ce.apply_operation(bs(), f0, f1)
     snap = W.snapshot()
